@@ -123,6 +123,38 @@ theorem C16_timer_armed_iff_queue_nonempty (r : R) :
     simp only [hh]
     cases r.timer <;> simp
 
+/-! ## retries run only when due -/
+
+/-- `processRetries` does nothing while the head of the time queue is not yet due (and nothing
+    when the queue is empty or the round is full): a failed operation is never retried before
+    its `retryAt`, which `C16_retry_not_before_min` puts at least the minimum backoff after the
+    failure -/
+theorem C16_no_retry_before_due (r : R) (fuel : Nat)
+    (h : r.head = none ∨ (∃ it, r.head = some it ∧ it.retryAt > r.now) ∨ r.numReconciled ≥ r.cfg.roundSize) :
+    r.processRetries fuel = r := by
+  cases fuel with
+  | zero => rfl
+  | succ n =>
+    unfold R.processRetries
+    rcases h with h | ⟨it, h, hlt⟩ | h
+    · split
+      · rfl
+      · simp [h]
+    · split
+      · rfl
+      · simp only [h]
+        simp [hlt]
+    · simp [h]
+
+/-- when a retry does run, it is the head of the time queue and it is due -/
+theorem C16_retry_runs_head_when_due (r : R) (n : Nat) (it : Item)
+    (hfull : ¬ r.numReconciled ≥ r.cfg.roundSize) (hh : r.head = some it) (hdue : ¬ it.retryAt > r.now) :
+    r.processRetries (n + 1) =
+      R.processRetries { (r.retryPop.processSingle it.obj it.rev it.delete) with
+        numReconciled := (r.retryPop.processSingle it.obj it.rev it.delete).numReconciled + 1 } n := by
+  rw [R.processRetries]
+  simp [hfull, hh, hdue]
+
 /-! ## low watermark -/
 
 private theorem foldl_min_le (l : List Nat) (x : Nat) : l.foldl min x ≤ x ∧ ∀ y ∈ l, l.foldl min x ≤ y := by
